@@ -25,17 +25,18 @@ theorem wasValidAt_source : VGen.keyringSkelWasValidAt = [
   "return signatureValidityCheck(atTs, r.ValidUntilTS)"
 ] := rfl
 
-/-- `StrictValiditySignatureCheck` (mirrored by `strictValidity`; `After` is strict `>`) -/
+/-- `StrictValiditySignatureCheck` (mirrored by `strictValidity`): unsigned millisecond counts compared directly,
+    the cap being `spec.AsTimestamp(now + 7d)`; no conversion through `time.Time` / int64 -/
 theorem strictValidity_source : VGen.keyringSkelStrict = [
   "if validUntil == PublicKeyNotValid {",
   "return false",
   "}",
   "sevenDaysFuture := time.Now().Add(time.Hour * 24 * 7)",
-  "validUntilTS := validUntil.Time()",
-  "if validUntilTS.After(sevenDaysFuture) {",
-  "validUntilTS = sevenDaysFuture",
+  "validUntilTS := validUntil",
+  "if sevenDaysFutureTS := spec.AsTimestamp(sevenDaysFuture); validUntilTS > sevenDaysFutureTS {",
+  "validUntilTS = sevenDaysFutureTS",
   "}",
-  "if atTs.Time().After(validUntilTS) {",
+  "if atTs > validUntilTS {",
   "return false",
   "}",
   "return true"
@@ -46,7 +47,8 @@ theorem noStrictValidity_source : VGen.keyringSkelNoStrict = [
   "return true"
 ] := rfl
 
-/-- `Timestamp.Time()`: milliseconds, so the comparisons above are comparisons of millisecond counts -/
+/-- `Timestamp.Time()` converts through int64 (exact below 2^63 only).  The validity checks above no longer use it;
+    its remaining user in the modelled code is `CheckKeys` (`keys.ValidUntilTS.Time().After(now)`) -/
 theorem timestamp_source : VGen.specSkelTimestampTime = [
   "return time.Unix(int64(t)/1000, (int64(t)%1000)*1000000).UTC()"
 ] := rfl
@@ -240,7 +242,7 @@ theorem publicKey_source : VGen.keysSkelPublicKey = [
   "if currentKey, ok := keys.VerifyKeys[keyID]; ok && (atTS <= keys.ValidUntilTS) {",
   "return currentKey.Key",
   "}",
-  "if oldKey, ok := keys.OldVerifyKeys[keyID]; ok && (atTS <= oldKey.ExpiredTS) {",
+  "if oldKey, ok := keys.OldVerifyKeys[keyID]; ok && (atTS < oldKey.ExpiredTS) {",
   "return oldKey.Key",
   "}",
   "return nil"
@@ -451,6 +453,27 @@ theorem wasValidAt_spec (k : KeyRes) (t : Nat) (strict : Bool) (now : Nat) :
       else (strict = false ∨ (k.validUntilTS ≠ 0 ∧ t ≤ min k.validUntilTS (now + 7 * 24 * 3600 * 1000))) :=
   wasValidAt_iff k t strict now
 
+/-- **No bound on the timestamps.**  Under the strict rule an unexpired key is accepted only for a request
+    timestamp at or before BOTH its `valid_until_ts` and seven days from now — for every natural `t`, the values at
+    and beyond 2^63 (where a conversion through int64 wraps) included. -/
+theorem strict_within_validity (k : KeyRes) (t now : Nat) (hk : k.expiredTS = 0)
+    (h : wasValidAt k t true now = true) : k.validUntilTS ≠ 0 ∧ t ≤ k.validUntilTS ∧ t ≤ now + sevenDaysMs := by
+  have := (wasValidAt_spec k t true now).1 h
+  simp only [hk, ne_eq, not_true_eq_false, ↓reduceIte, Bool.true_eq_false, false_or] at this
+  refine ⟨this.1, ?_, ?_⟩
+  · exact Nat.le_trans this.2 (Nat.min_le_left _ _)
+  · exact Nat.le_trans this.2 (by unfold sevenDaysMs; exact Nat.min_le_right _ _)
+
+/-- the inputs on which `StrictValiditySignatureCheck` used to answer `true` (it converted through `time.Time`, i.e.
+    int64): request timestamps 2^63 and 2^64-1 against a key whose validity ended a year before `now` -/
+example : wasValidAt { key := [], expiredTS := 0, validUntilTS := 1758710400000 } 9223372036854775808 true 1790246400000 = false := by decide
+example : wasValidAt { key := [], expiredTS := 0, validUntilTS := 1758710400000 } 18446744073709551615 true 1790246400000 = false := by decide
+/-- … and, the other way round, a `valid_until_ts` of 2^63 / 2^64-1 is capped at seven days from now like any other -/
+example : wasValidAt { key := [], expiredTS := 0, validUntilTS := 9223372036854775808 } 1790246400000 true 1790246400000 = true := by decide
+example : wasValidAt { key := [], expiredTS := 0, validUntilTS := 18446744073709551615 } (1790246400000 + sevenDaysMs + 1) true 1790246400000 = false := by decide
+/-- `strict_within_validity` is not vacuous -/
+example : wasValidAt { key := [], expiredTS := 0, validUntilTS := 9000 } 9000 true 5000 = true := by decide
+
 /-- **Completeness.**  When the call returns results (no database / store error), request `i` succeeds
     whenever, for one of its supported signatures, the key *supplied* for (server, key ID) — the database's
     entry if the database keeps it (expired-marked or inside its validity), else the first fetcher's that
@@ -571,6 +594,99 @@ theorem checkKeys_spec (serverName : Bytes) (nowMs : Nat) (keys : ServerKeys) :
     have : e ∈ filter (fun e => algorithmOf e.keyID == ed25519Name) keys.verifyKeys := by
       simp only [mem_filter, beq_iff_eq]; exact ⟨he, ha⟩
     rw [hnil] at this; cases this
+
+/-- **`ServerKeys.PublicKey` answers with a key valid at the instant**: a key it returns is the response's current
+    key of that ID with `t ≤ valid_until_ts`, or its old key of that ID with `t < expired_ts` (BEFORE, not at). -/
+theorem publicKey_valid (keys : ServerKeys) (keyID : Bytes) (t : Nat) (k : Bytes) (h : publicKey keys keyID t = some k) :
+    (∃ e, keys.verifyKeys.find? (fun e => e.keyID == keyID) = some e ∧ e.key = k ∧ t ≤ keys.validUntilTS) ∨
+    (∃ e, keys.oldVerifyKeys.find? (fun e => e.keyID == keyID) = some e ∧ e.key = k ∧ t < e.expiredTS) := by
+  unfold publicKey at h
+  split at h
+  · rename_i cur hc
+    split at h
+    · rename_i hle; cases h; exact Or.inl ⟨cur, hc, rfl, hle⟩
+    · split at h
+      · rename_i old ho
+        split at h
+        · rename_i hlt; cases h; exact Or.inr ⟨old, ho, rfl, hlt⟩
+        · cases h
+      · cases h
+  · split at h
+    · rename_i old ho
+      split at h
+      · rename_i hlt; cases h; exact Or.inr ⟨old, ho, rfl, hlt⟩
+      · cases h
+    · cases h
+
+/-- **… and answers whenever there is one**: `nil` only if the response has no current key of that ID valid at `t`
+    and no old key of that ID valid at `t`; in full, the outcome satisfies the specification `Spec.publicKeyOK`
+    (what the property's validity clause says about the entries of a key response). -/
+theorem publicKey_spec (keys : ServerKeys) (keyID : Bytes) (t : Nat) :
+    Spec.publicKeyOK keys keyID t (publicKey keys keyID t) = true := by
+  unfold Spec.publicKeyOK Spec.currentKeyAt Spec.oldKeyAt publicKey
+  cases hc : keys.verifyKeys.find? (fun e => e.keyID == keyID) with
+  | none =>
+    cases ho : keys.oldVerifyKeys.find? (fun e => e.keyID == keyID) with
+    | none => simp
+    | some old => by_cases hlt : t < old.expiredTS <;> simp [hlt]
+  | some cur =>
+    by_cases hle : t ≤ keys.validUntilTS
+    · simp [hle]
+    · cases ho : keys.oldVerifyKeys.find? (fun e => e.keyID == keyID) with
+      | none => simp [hle]
+      | some old => by_cases hlt : t < old.expiredTS <;> simp [hle, hlt]
+
+/-- where the clause determines the answer (always, unless a current and an old entry of that ID with different
+    keys are both valid at `t`), `PublicKey` gives exactly that answer — this is the specification column of the
+    `keyring.public_key` correspondence op -/
+theorem publicKey_answer (keys : ServerKeys) (keyID : Bytes) (t : Nat) (a : Option Bytes)
+    (h : Spec.publicKeyAnswer keys keyID t = some a) : publicKey keys keyID t = a := by
+  have hok := publicKey_spec keys keyID t
+  unfold Spec.publicKeyAnswer at h
+  unfold Spec.publicKeyOK at hok
+  cases hc : Spec.currentKeyAt keys keyID t with
+  | none =>
+    cases ho : Spec.oldKeyAt keys keyID t with
+    | none =>
+      rw [hc, ho] at h; cases h
+      cases hp : publicKey keys keyID t with
+      | none => rfl
+      | some k => rw [hp, hc, ho] at hok; simp at hok
+    | some b =>
+      rw [hc, ho] at h; cases h
+      cases hp : publicKey keys keyID t with
+      | none => rw [hp, hc, ho] at hok; simp at hok
+      | some k => rw [hp, hc, ho] at hok; simp at hok; rw [hok]
+  | some a' =>
+    cases ho : Spec.oldKeyAt keys keyID t with
+    | none =>
+      rw [hc, ho] at h; cases h
+      cases hp : publicKey keys keyID t with
+      | none => rw [hp, hc, ho] at hok; simp at hok
+      | some k => rw [hp, hc, ho] at hok; simp at hok; rw [hok]
+    | some b =>
+      rw [hc, ho] at h
+      by_cases hab : (a' == b) = true
+      · simp only [hab, ↓reduceIte, Option.some.injEq] at h; subst h
+        have hab' : a' = b := by simpa using hab
+        cases hp : publicKey keys keyID t with
+        | none => rw [hp, hc, ho] at hok; simp at hok
+        | some k => rw [hp, hc, ho] at hok; simp at hok; rcases hok with h1 | h1 <;> simp [h1, hab']
+      · simp [hab] at h
+
+def exOldResponse : ServerKeys where
+  serverName := [97]
+  validUntilTS := 9000
+  verifyKeys := [{ keyID := ed25519Name ++ [58, 49], key := List.replicate 32 7, selfSigned := true }]
+  oldVerifyKeys := [{ keyID := ed25519Name ++ [58, 48], key := List.replicate 32 5, expiredTS := 1000 }]
+
+/-- the boundary `ServerKeys.PublicKey` used to get wrong (`atTS <= expired_ts`): an old key is returned one
+    millisecond before its expired_ts, not at it and not after it; the current key up to and including valid_until_ts -/
+example : publicKey exOldResponse (ed25519Name ++ [58, 48]) 999 = some (List.replicate 32 5)
+    ∧ publicKey exOldResponse (ed25519Name ++ [58, 48]) 1000 = none
+    ∧ publicKey exOldResponse (ed25519Name ++ [58, 48]) 1001 = none
+    ∧ publicKey exOldResponse (ed25519Name ++ [58, 49]) 9000 = some (List.replicate 32 7)
+    ∧ publicKey exOldResponse (ed25519Name ++ [58, 49]) 9001 = none := by decide
 
 /-- … and the keys it returns are exactly the accepted response's ed25519 keys (none unless accepted). -/
 theorem checkKeys_keys (serverName : Bytes) (nowMs : Nat) (keys : ServerKeys) :
